@@ -21,7 +21,9 @@ vars == <<c, am, ai, ar, seen>>
 
 Case == Cases[c]
 Threads == 1..Case.nt
-Ops == [t \in Threads |-> [k \in 1..Case.reps |-> [v |-> Case.args[t][k][2], e |-> Case.args[t][k][3]]]]
+Ops == [t \in Threads |-> [k \in 1..Case.reps |->
+          [opk |-> IF Case.mix = 1 /\ Case.args[t][k][3] # 0 THEN "add" ELSE Case.opk,
+           v |-> Case.args[t][k][2], e |-> Case.args[t][k][3]]]]
 
 Init == /\ c \in 1..Len(Cases)
         /\ am = Case.init
@@ -31,7 +33,7 @@ Init == /\ c \in 1..Len(Cases)
 
 Do(t) == /\ t \in Threads /\ ai[t] <= Case.reps
          /\ LET o == Ops[t][ai[t]]
-                r == Sem(Case.opk, Case.w, Case.sg, am, o.v, o.e)
+                r == Sem(o.opk, Case.w, Case.sg, am, o.v, o.e)
             IN /\ am' = r.mem
                /\ ar' = [ar EXCEPT ![t] = Append(@, r.ret)]
                /\ seen' = seen \cup {r.mem}
@@ -43,9 +45,9 @@ Spec == Init /\ [][Next]_vars
 
 Finished == \A t \in Threads : ai[t] > Case.reps
 
-LinIsExact == Finished => [mem |-> am, rets |-> ar] \in Lin(Case.opk, Case.w, Case.sg, Ops, Case.init)
+LinIsExact == Finished => [mem |-> am, rets |-> ar] \in Lin(Case.w, Case.sg, Ops, Case.init)
 
-Commutative == Case.opk \in {"add", "sub", "and", "or", "xor", "fadd", "fsub", "fand", "for", "fxor",
+Commutative == Case.mix = 0 /\ Case.opk \in {"add", "sub", "and", "or", "xor", "fadd", "fsub", "fand", "for", "fxor",
                              "preinc", "predec", "postinc", "postdec", "casinc", "lock"}
 RECURSIVE FoldAll(_, _, _)
 FoldAll(cur, t, k) ==
